@@ -37,7 +37,6 @@ struct Log
     std::string last_dlerror; // last non-null string the real dlerror() returned
     bool dlerror_was_null = true;
     long opens = 0, closes = 0, failed_opens = 0, syms = 0;
-    bool active = false;
     void reset()
     {
         outstanding.clear();
@@ -52,6 +51,10 @@ static Log& log()
     static Log* l = new Log;
     return *l;
 }
+// Constant-initialised: the wrappers below may be entered before any dynamic
+// initialisation has run - with clang's statically linked sanitizer runtime even the
+// runtime's own start-up calls to dlsym() are redirected here - and must not allocate then.
+static bool active = false;
 } // namespace lw
 
 extern "C"
@@ -59,7 +62,7 @@ extern "C"
     void* __wrap_dlopen(const char* file, int mode)
     {
         void* h = __real_dlopen(file, mode);
-        if (lw::log().active)
+        if (lw::active)
         {
             if (h)
             {
@@ -73,7 +76,7 @@ extern "C"
     }
     int __wrap_dlclose(void* h)
     {
-        if (lw::log().active)
+        if (lw::active)
         {
             lw::log().closes++;
             if (h == nullptr)
@@ -89,14 +92,14 @@ extern "C"
     }
     void* __wrap_dlsym(void* h, const char* name)
     {
-        if (lw::log().active)
+        if (lw::active)
             lw::log().syms++;
         return __real_dlsym(h, name);
     }
     char* __wrap_dlerror(void)
     {
         char* e = __real_dlerror();
-        if (lw::log().active)
+        if (lw::active)
         {
             lw::log().dlerror_was_null = e == nullptr;
             if (e)
@@ -282,7 +285,7 @@ static std::string check_dl(const Case& c, vf::Ctx& ctx)
     static const std::string dir = exe_dir();
     lw::Log& L = lw::log();
     L.reset();
-    L.active = true;
+    lw::active = true;
     std::string err;
     bool nontrivial = false;
     {
@@ -513,7 +516,7 @@ static std::string check_dl(const Case& c, vf::Ctx& ctx)
             verify(" (after all objects were destroyed)");
         }
     }
-    L.active = false;
+    lw::active = false;
     if (nontrivial)
         ctx.mark_nontrivial();
     return err;
